@@ -30,8 +30,8 @@ SIDE = {
          'TLA+ builder specification: TLC model-checks traversal-order independence; TLC compares real build_dag graphs with the declarative graph', 'tla-builder'),
  'C16': ('translation_validation', 'every single-defect mutation of generated declaration sets at every node, built with the real build_dag / build_node; TLC compares the raised error class with ExpectedVerdict of Builder.tla; the worklist machine shows rejection in every traversal order', '7 C16',
          'TLA+ builder specification (ExpectedVerdict) evaluated by TLC on real build results; worklist machine model-checked', 'tla-builder'),
- 'C17': ('model_checking', 'every execution-mode assignment on the virtual loop plus a sample on a real event loop with real thread/process pools, all validated at level O against the mode-free TLA+ semantics; five pool-registry states in fresh interpreters checked by the C17.pool clause', '7 C17',
-         'level-O TLA+ trace validation of virtual-loop and real-loop/real-pool executions; pool fail-fast clause', 'tla-level-o'),
+ 'C17': ('model_checking', 'every execution-mode assignment (coroutine, inline, thread, process, tagged coroutine) on the virtual loop plus a sample on a real event loop with real thread/process pools, all validated at level O against the mode-free TLA+ semantics; Pools.tla (pool registries + fail-fast check of DAG.run as a state machine) model-checked by TLC, and directed / random call histories of the real registries (fresh interpreter each, chart objects re-used) validated call by call by PoolsTrace.tla', '7 C17, 11.1',
+         'level-O TLA+ trace validation of virtual-loop and real-loop/real-pool executions; TLA+ state machine of the pool registries model-checked by TLC + trace validation of real registry histories', 'tla-level-o'),
  'C18': ('model_checking', 'ArtifactStore.tla (write-once map) model-checked exhaustively on a small instance; seeded save/load histories of the real FileSystemArtifactStore over adversarial ids, both formats, shared directories and failing serialisers validated action by action by TLC', '7 C18',
          'TLA+ state machine model-checked by TLC + trace validation of real store histories', 'tla-artifact-store'),
  'C20': ('translation_validation', 'the configuration produced by the real GraphConfigImpl for DAGs built from generated source modules compared by TLC with Viewer.tla ExpectedConfig (derived from the declarations through Builder.tla); repeated generation on one object; DAG snapshot unchanged', '7 C20',
@@ -75,6 +75,7 @@ m = {
              {'name': 'tla-builder', 'path': '/verif/spec/Builder.tla', 'serves_properties': ['C15', 'C16'], 'kind_free_text': 'declarative graph + worklist machine (BuilderMachine.tla), BuilderTrace.tla for real build results'},
              {'name': 'tla-artifact-store', 'path': '/verif/spec/ArtifactStore.tla', 'serves_properties': ['C18'], 'kind_free_text': 'write-once map state machine + ArtifactStoreTrace.tla'},
              {'name': 'tla-viewer', 'path': '/verif/spec/Viewer.tla', 'serves_properties': ['C20'], 'kind_free_text': 'expected viewer configuration + ViewerTrace.tla'},
+             {'name': 'tla-pools', 'path': '/verif/spec/Pools.tla', 'serves_properties': ['C17'], 'kind_free_text': 'pool registries and the fail-fast check as a state machine (MC_Pools.tla) + PoolsTrace.tla for histories of the real registries'},
              {'name': 'tla-level-o', 'path': '/verif/spec/ObsTrace.tla', 'serves_properties': sorted(set(CHECKS) | {'C17'}),
               'kind_free_text': 'observable-level TLA+ trace specification + TLA+ reference semantics, evaluated by TLC on recorded executions'}],
  'checks': checks,
